@@ -252,6 +252,16 @@ class Desugar:
         if isinstance(st, ast.Expr) and isinstance(st.value, ast.Call) and isinstance(st.value.func, ast.Attribute) and st.value.func.attr in LOG_METHODS \
                 and isinstance(st.value.func.value, ast.Name) and st.value.func.value.id in self.loggers:
             return []
+        # iterating over a copy of a table (`for k in list(TABLE)` / `dict(TABLE)` / `tuple(TABLE)`) visits the same keys in the same order
+        if isinstance(st, ast.For) and isinstance(st.iter, ast.Call) and isinstance(st.iter.func, ast.Name) and st.iter.func.id in ("list", "tuple", "dict") \
+                and len(st.iter.args) == 1 and not st.iter.keywords and isinstance(st.iter.args[0], ast.Name) and st.iter.args[0].id.isupper():
+            st.iter = st.iter.args[0]
+        # setattr(x, "name", v) as a statement is the assignment x.name = v
+        if isinstance(st, ast.Expr) and isinstance(st.value, ast.Call) and isinstance(st.value.func, ast.Name) and st.value.func.id == "setattr" and len(st.value.args) == 3 \
+                and not st.value.keywords and isinstance(st.value.args[1], ast.Constant) and isinstance(st.value.args[1].value, str) and st.value.args[1].value.isidentifier():
+            tgt = ast.Attribute(value=st.value.args[0], attr=st.value.args[1].value, ctx=ast.Store())
+            st = ast.copy_location(ast.Assign(targets=[tgt], value=st.value.args[2]), st)
+            ast.fix_missing_locations(st)
         # walrus hoisting out of header expressions
         if isinstance(st, (ast.If,)):
             st.test, pre = _hoist(st.test)
